@@ -40,8 +40,18 @@
                                                               one_client_model_embeds (step2 restricted to
                                                                 client A is step)
    interest set (Server.cpp:348,460,497,505)                  interest_invariant, unregistered_has_no_backlog
-   model = reference object of the property                   model_refines_spec (ServerWriteRefine.v)
-                                                              two_client_model_refines_spec (ServerWrite2Refine.v)
+   the property as a set of traces (ServerWriteMonitor.v):     model_history_accepted_by_property_monitor
+     a monitor over the events of one client that rejects     two_client_history_accepted_by_property_monitor
+     exactly what contradicts a clause above (stream / size /  (trace, trace2: ServerWriteMonitorProofs.v; the
+     onWrite incl. a progress bound / suspended / peer) and     progress clause is part of the one-client trace only)
+     leaves open what the text leaves open: number and size
+     of send calls, order of callbacks of different clients,
+     onClosed, when onRead IS delivered.  THIS is the oracle
+     the implementation is judged by (checks/C13.py runs the
+     extracted monitor on the observed trace).
+   model = reference OBJECT (one exact observation per         model_refines_spec (ServerWriteRefine.v)
+     operation: one send of the whole backlog per event, ...)  two_client_model_refines_spec (ServerWrite2Refine.v)
+     - the precise, call-by-call version; about the model only
 
    Not proved here (assumed / validated by correspondence only): that the kernel delivers the bytes it
    accepted to the peer in order (stream socket semantics: [wire] is a FIFO in the model); that the
@@ -49,7 +59,7 @@
    kernel, checks/C13.py). *)
 From Coq Require Import ZArith List Bool.
 From ServerWrite Require Import ServerWriteSpec ServerWriteModel ServerWriteProofs ServerWriteTheorems ServerWriteRefine
-  ServerWrite2Spec ServerWrite2Model ServerWrite2Proofs ServerWrite2Refine.
+  ServerWrite2Spec ServerWrite2Model ServerWrite2Proofs ServerWrite2Refine ServerWriteMonitor ServerWriteMonitorProofs.
 Import ListNotations.
 Local Open Scope Z_scope.
 
@@ -214,7 +224,49 @@ Theorem two_client_model_refines_spec : forall ops,
 Proof. exact refinement2_lemma. Qed.
 Print Assumptions two_client_model_refines_spec.
 
+(* ---- the property as a monitor over traces ------------------------------------------------------------
+
+   [trace init ops]: the events the history ops of the one-client model shows (write calls with their
+   return value, postponed count and the bytes the OS took; bytes the OS took from sends of backlog;
+   refused sends; callbacks; suspend/resume; getSendBufferSize after every operation; what the peer
+   reads; the kernel finding the socket writable; the end of every run()).  [mon_run mon_init] is the
+   monitor of ServerWriteMonitor.v.  Every history - every interleaving of writes of every size,
+   suspend/resume, poll events with every readiness, reads, peer actions, and every answer of the
+   operating system to every send - is accepted.  [trace2 c init2 ops]: the events of client c in a
+   history of the two-client machine. *)
+
+Theorem model_history_accepted_by_property_monitor : forall ops,
+  exists m, mon_run mon_init (trace init ops) = Go m.
+Proof. exact model_trace_accepted_lemma. Qed.
+Print Assumptions model_history_accepted_by_property_monitor.
+
+Theorem two_client_history_accepted_by_property_monitor : forall ops c,
+  exists m, mon_run mon_init (trace2 c init2 ops) = Go m.
+Proof. exact two_client_trace_accepted_lemma. Qed.
+Print Assumptions two_client_history_accepted_by_property_monitor.
+
 (* ---- non-vacuity ------------------------------------------------------------------------------------ *)
+
+(* the monitor rejects what contradicts the text ... *)
+Example ex_monitor_rejects :
+  mon_run mon_init [EWrite [1; 2; 3] true (Some 3) []; EWritable; EHand [2]] = Stop c_stream /\
+  mon_run mon_init [EWrite [1; 2] false (Some 0) [1]] = Stop c_stream /\
+  mon_run mon_init [EWrite [1; 2; 3] true (Some 2) [1; 2]] = Stop c_size /\
+  mon_run mon_init [EWrite [1; 2; 3] true None [1]; ESize 3] = Stop c_size /\
+  mon_run mon_init [EWrite [1; 2] true None [1]; ECb OnWrite] = Stop c_onwrite /\
+  mon_run mon_init [EWrite [1; 2] true None [1]; EHand [2]; ECb OnWrite; ERunEnd; ECb OnWrite] = Stop c_onwrite /\
+  mon_run mon_init [EWrite [1; 2] true None [1]; EHand [2]; ERunEnd] = Stop c_onwrite /\
+  mon_run mon_init [ESusp true; ECb OnRead] = Stop c_suspended /\
+  mon_run mon_init [EWrite [1; 2] true None [1]; EWritable; ERunEnd; EWritable; ERunEnd] = Stop c_progress /\
+  mon_run mon_init [EWrite [1; 2] true None [1; 2]; EPeer [1]] = Stop c_peer.
+Proof. vm_compute. repeat split. Qed.
+
+(* ... and accepts what the text leaves open: the backlog split over any number of send calls, an onRead in
+   between, a refused send *)
+Example ex_monitor_accepts_any_split :
+  exists m, mon_run mon_init [EWrite [1; 2; 3; 4; 5] true (Some 4) [1]; EWritable; EHand [2]; EHand [3; 4]; ECb OnRead; ESize 1; ERunEnd;
+                              EWritable; EBlock; ERunEnd; EWritable; EHand [5]; ECb OnWrite; ESize 0; ERunEnd; EPeer [1; 2; 3; 4; 5]] = Go m.
+Proof. eexists. vm_compute. reflexivity. Qed.
 
 (* a history with a partial send, an append behind the backlog, a would-block, a suspended phase with a
    readable+writable report, a drain, and peer reads *)
@@ -274,6 +326,17 @@ Example ex_unregistered :
   let s := fst (exec init [Write [1; 2] WouldBlock; Dispatch (mknative false true false false false) Error]) in
   registered s = false /\ backlog s = [] /\ gave_up (snd (exec init [Write [1; 2] WouldBlock; Dispatch (mknative false true false false false) Error])) = true.
 Proof. vm_compute. repeat split. Qed.
+
+(* the trace of the example history: 36 events, accepted; the monitor ends void (the history ends with a
+   failing send) after having followed the backlog through a partial send, an append, a suspended phase and the drain *)
+Example ex_trace_accepted :
+  length (trace init ex_ops) = 36%nat /\
+  (exists m, mon_run mon_init (trace init ex_ops) = Go m /\ m_void m = true) /\
+  (exists m, mon_run mon_init (trace init (firstn 6 ex_ops)) = Go m /\ m_pend m = [4; 5; 6; 7] /\ m_susp m = true /\
+             m_owed m = true /\ m_void m = false) /\
+  (exists m, mon_run mon_init (trace init (firstn 11 ex_ops)) = Go m /\ m_pend m = [] /\ m_wire m = [] /\ m_owed m = false /\
+             m_void m = false).
+Proof. vm_compute. repeat split; eexists; repeat split. Qed.
 
 Example ex_refinement :
   snd (spec_exec spec_init ex_ops) = map Some (snd (exec init ex_ops)).
